@@ -12,6 +12,7 @@ LEVEL = "exploration"
 
 def plan(ctx):
     units, sizes = _e1.make_units(ctx)
+    units += [(d, "scale", 0, 1) for d in _e1.DRAFTS]
     U = _e1.get_universe(ctx.tier)
     Up = _e1.get_universe(ctx.tier, "pairs")
     return {
@@ -19,7 +20,10 @@ def plan(ctx):
         "rule": ("every schema of the grammar G(draft) = singles, ALL ordered pairs of singles with "
                  "different keywords, sibling-group products and nested applicators (depth 2, arity 3), "
                  "filtered by the real check_schema, x every instance of the universe U (plus, except for the pairs, "
-                 "13 instances with integers beyond the double range and floats at the edges of exactness), x 4 drafts; "
+                 "19 instances with integers beyond the double range and floats at the edges of exactness), x 4 drafts; "
+                 "SCALE: ~600 (schema, instance) pairs per draft whose point is size (array / object / string / enum / "
+                 "required lists of 9 .. 1000 elements, strings up to 70000 characters, thresholds n-1 / n / n+1, a "
+                 "near-duplicate pair inside long uniqueItems arrays, nesting depth 20); "
                  "each (draft, schema, instance) is generated once (lists are de-duplicated by JSON text), "
                  "so evaluations are distinct; non-trivial = at least one keyword of the schema applies to "
                  "the instance's JSON type and the reference evaluator is exact on the case"),
@@ -35,6 +39,82 @@ def plan(ctx):
 # singles, the sibling groups and the nested schemas; the ordered pairs keep the pair universe)
 EXTRA_NUM = [10 ** 400, -10 ** 400, 2 ** 1024, 2 ** 53 + 1, float(2 ** 53), 1e308, -1e308, 5e-324, -0.0,
              [10 ** 400], {"a": 10 ** 400}, [2 ** 1024, 2 ** 1024], {"a": -10 ** 400, "b": 1e308}]
+
+
+EXTRA_NUM += [1000000000.5, 4503599627370495.5, 1.0000000001, 0.30000000000000004, 12345678.905, 123456789.125]
+
+
+def scale_cases(d):
+    """(schema, instance) pairs in which SIZE is the point: thresholds at 16/17, 64/65, 256/257, 4096/4097 ..."""
+    out = []
+    ns = [9, 16, 17, 32, 33, 64, 65, 128, 256, 257, 1000]
+    for n in ns:
+        arr = list(range(n))
+        for m in (n - 1, n, n + 1):
+            out += [({"maxItems": m}, arr), ({"minItems": m}, arr)]
+        obj = {"k%d" % i: i for i in range(n)}
+        for m in (n - 1, n, n + 1):
+            out += [({"maxProperties" if d >= 4 else "maxItems": m}, obj if d >= 4 else arr),
+                    ({"minProperties" if d >= 4 else "minItems": m}, obj if d >= 4 else arr)]
+        out.append(({"items": {"type": "integer"}}, arr[:-1] + ["x"]))
+        out.append(({"items": {"type": "integer"}}, arr))
+        out.append(({"enum": arr}, n - 1))
+        out.append(({"enum": arr}, n))
+        out.append(({"enum": [[i] for i in range(n)]}, [n - 1.0]))
+        out.append(({"additionalProperties": False, "properties": {"k0": {}}}, obj))
+        out.append(({"additionalProperties": {"type": "integer"}}, dict(obj, last="x")))
+        out.append(({"patternProperties": {"^k": {"type": "integer"}}, "additionalProperties": False}, dict(obj, z=1)))
+        if d >= 4:
+            out.append(({"required": ["k%d" % i for i in range(n)]}, {"k%d" % i: i for i in range(n - 1)}))
+            out.append(({"required": ["k%d" % i for i in range(n)]}, obj))
+        if d >= 6:
+            out.append(({"contains": {"type": "string"}}, arr))
+            out.append(({"contains": {"type": "string"}}, arr + ["x"]))
+        # uniqueItems: n elements, all different but one pair that is equal only as JSON data
+        fill = [[{"price": 50 + i}, [10 + i], "s%d" % i, i + 1000, {"q": [i]}][i % 5] for i in range(n - 2)]
+        mid = len(fill) // 2
+        for a, b in (([1], [1.0]), ({"k": 5}, {"k": 5.0}), (5, 5.0), ({"a": 1, "b": 2}, {"b": 2, "a": 1})):
+            out.append(({"uniqueItems": True}, [a] + fill + [b]))
+            out.append(({"uniqueItems": True}, fill[:mid] + [a] + fill[mid:mid + 2] + [b] + fill[mid + 2:]))
+        out.append(({"uniqueItems": True}, [True] + fill + [1]))
+    for n in (16, 255, 256, 4096, 4097, 70000):
+        for m in (n - 1, n, n + 1):
+            out += [({"maxLength": m}, "a" * n), ({"minLength": m}, "a" * n), ({"maxLength": m}, "😀" * n)]
+        out.append(({"pattern": "^a"}, "a" * n + "b"))
+        out.append(({"pattern": "b$"}, "a" * n))
+        out.append(({"pattern": "^a", "maxLength": 5}, "b" + "a" * n))
+        out.append(({"maxLength": 5, "pattern": "b$"}, "a" * n))
+    deep_s, deep_x = {"type": "integer"}, 1.5
+    for _ in range(20):
+        deep_s, deep_x = {"items": deep_s}, [deep_x]
+    out.append((deep_s, deep_x))
+    return out
+
+
+def run_scale(unit, ctx):
+    d = unit[0]
+    ev = 0
+    viol, outcomes = [], {}
+    for S, x in scale_cases(d):
+        if not _e1.accepted(d, S):
+            continue
+        try:
+            exp = not spec.errs(d, S, x)
+        except spec.Unsupported:
+            continue
+        ev += 1
+        got = verdict(d, S, x)
+        key = "scale:" + ("valid" if exp else "invalid")
+        outcomes[key] = outcomes.get(key, 0) + 1
+        if got != ("ok", exp):
+            size = len(x) if isinstance(x, (list, dict, str)) else 0
+            viol.append({"signature": "C01|scale|%s|%s" % ("verdict" if got[0] == "ok" else "crash-" + got[1], _e1.kwsig(S)),
+                         "size": size, "case": {"draft": d, "scale": True, "schema_keys": sorted(S), "size": size,
+                                                "index": ev},
+                         "detail": {"expected_valid": exp, "observed": got, "instance_size": size,
+                                    "schema": S if len(str(S)) < 300 else str(S)[:300]}})
+    return {"evaluations": ev, "nontrivial": ev, "violations": viol, "samples": [], "outcomes": outcomes,
+            "counters": {"scale_cases": ev}}
 
 
 def verdict(d, S, x):
@@ -55,6 +135,8 @@ def disagrees(d, S, x):
 
 
 def run_unit(unit, ctx):
+    if unit[1] == "scale":
+        return run_scale(unit, ctx)
     d = unit[0]
     U = _e1.get_universe(ctx.tier, unit[1])
     if unit[1] != "pairs":
@@ -99,6 +181,21 @@ def run_unit(unit, ctx):
 
 
 def replay(case, ctx):
+    if case.get("scale"):
+        d = case["draft"]
+        n = 0
+        for S, x in scale_cases(d):
+            if not _e1.accepted(d, S):
+                continue
+            try:
+                exp = not spec.errs(d, S, x)
+            except spec.Unsupported:
+                continue
+            n += 1
+            if n == case["index"]:
+                got = verdict(d, S, x)
+                return {"reproduced": got != ("ok", exp), "expected_valid": exp, "observed": got}
+        return {"reproduced": False}
     d, S, x = case["draft"], case["schema"], case["instance"]
     exp = spec.valid(d, S, x)
     got = verdict(d, S, x)
